@@ -184,6 +184,9 @@ type xcase struct {
 	RecvKeys   map[string]string `json:"receiver_other_keys,omitempty"` // further entries of Transfer.TsigSecret
 	Step       string            `json:"step,omitempty"`            // position in its sequence, what came before
 	Reused     bool              `json:"transfer_value_reused,omitempty"`
+	// Pace: the connection honours read deadlines, the sender paces its envelopes
+	// and the consumer pauses between items (pace.go)
+	Pace *paceSpec `json:"pace,omitempty"`
 }
 
 func (c xcase) kname() string {
@@ -298,6 +301,11 @@ type scriptConn struct {
 	stall    bool
 	closed   int
 	readsAfterClose int
+	// the read deadline in force and when it was installed (SetReadDeadline /
+	// SetDeadline); pace != nil: the connection honours it (pace.go)
+	rdl, rdlSet time.Time
+	noDeadline  int // envelope reads begun with no read deadline in force
+	pace        *pacer
 }
 
 type timeoutErr struct{}
@@ -323,6 +331,16 @@ func (s *scriptConn) Read(p []byte) (int, error) {
 		}
 		return 0, io.EOF
 	}
+	if k, atStart := s.frameAt(); atStart {
+		if s.rdl.IsZero() {
+			s.noDeadline++
+		}
+		if s.pace != nil {
+			if err := s.pace.beginRead(s, k); err != nil {
+				return 0, err
+			}
+		}
+	}
 	n := len(p)
 	if s.chunk > 0 && n > s.chunk {
 		n = s.chunk
@@ -332,6 +350,9 @@ func (s *scriptConn) Read(p []byte) (int, error) {
 	}
 	copy(p, s.data[s.off:s.off+n])
 	s.off += n
+	if s.pace != nil {
+		s.pace.delivered(s)
+	}
 	return n, nil
 }
 func (s *scriptConn) Write(p []byte) (int, error) {
@@ -341,6 +362,9 @@ func (s *scriptConn) Write(p []byte) (int, error) {
 		return 0, net.ErrClosed
 	}
 	s.wrote = append(s.wrote, p...)
+	if s.pace != nil {
+		s.pace.wrote()
+	}
 	return len(p), nil
 }
 func (s *scriptConn) Close() error {
@@ -351,9 +375,27 @@ func (s *scriptConn) Close() error {
 }
 func (s *scriptConn) LocalAddr() net.Addr                { return &net.TCPAddr{IP: net.IPv4(127, 0, 0, 1), Port: 1} }
 func (s *scriptConn) RemoteAddr() net.Addr               { return &net.TCPAddr{IP: net.IPv4(127, 0, 0, 1), Port: 2} }
-func (s *scriptConn) SetDeadline(t time.Time) error      { return nil }
-func (s *scriptConn) SetReadDeadline(t time.Time) error  { return nil }
+func (s *scriptConn) SetDeadline(t time.Time) error      { return s.SetReadDeadline(t) }
+func (s *scriptConn) SetReadDeadline(t time.Time) error {
+	s.mu.Lock()
+	defer s.mu.Unlock()
+	s.rdl = t
+	if s.pace != nil {
+		s.rdlSet = time.Now()
+	}
+	return nil
+}
 func (s *scriptConn) SetWriteDeadline(t time.Time) error { return nil }
+
+// frameAt: the frame the next octet belongs to, and whether that octet is its
+// first one (s.mu held, data not exhausted)
+func (s *scriptConn) frameAt() (k int, atStart bool) {
+	start := 0
+	for k = 0; k < len(s.ends) && s.ends[k] <= s.off; k++ {
+		start = s.ends[k]
+	}
+	return k, s.off == start
+}
 
 // frames consumed = number of complete frames whose last octet was read, plus
 // one if a cut frame was (partly) read
@@ -539,6 +581,8 @@ type obs struct {
 	readsAfterClose int
 	inErr    string
 	query    []byte // what Transfer.In wrote to the connection
+	noDeadline int       // envelope reads begun with no read deadline in force
+	paceLog    []paceRow // paced transfers: the deadline in force at every envelope read
 }
 
 func errClass(err error) string {
@@ -585,6 +629,12 @@ func mkQuery(c xcase) *dns.Msg {
 // later envelope has been read - the records handed out must still be the
 // transmitted ones then.
 func collect(c xcase, ch chan *dns.Envelope, atClose func() int) (o obs) {
+	return collectPaused(c, ch, atClose, nil)
+}
+
+// collectPaused: before(j) runs before the consumer asks for item j (a consumer
+// that takes its time between envelopes: pace.go)
+func collectPaused(c xcase, ch chan *dns.Envelope, atClose func() int, before func(j int)) (o obs) {
 	t := c.table()
 	defer func() {
 		for _, e := range o.envs {
@@ -603,7 +653,10 @@ func collect(c xcase, ch chan *dns.Envelope, atClose func() int) (o obs) {
 			}
 		}
 	}()
-	for {
+	for j := 0; ; j++ {
+		if before != nil {
+			before(j)
+		}
 		select {
 		case e, ok := <-ch:
 			if !ok {
@@ -635,12 +688,25 @@ func runScriptedOn(t *dns.Transfer, c xcase) obs {
 	if c.Tsig {
 		t.TsigSecret = c.recvKeys()
 	}
+	t.ReadTimeout = 0
+	var before func(j int)
+	if c.Pace != nil {
+		t.ReadTimeout = c.Pace.readTimeoutField()
+		sc.pace = newPacer(c.Pace)
+		before = func(j int) { sc.pace.consumerBefore(sc, j) }
+	}
 	ch, err := t.In(mkQuery(c), "scripted")
 	if err != nil {
 		return obs{inErr: err.Error()}
 	}
-	o := collect(c, ch, func() int { sc.mu.Lock(); defer sc.mu.Unlock(); return sc.closed })
+	o := collectPaused(c, ch, func() int { sc.mu.Lock(); defer sc.mu.Unlock(); return sc.closed }, before)
 	o.frames = sc.framesConsumed()
+	sc.mu.Lock()
+	o.noDeadline = sc.noDeadline
+	if sc.pace != nil {
+		o.paceLog = sc.pace.log
+	}
+	sc.mu.Unlock()
 	sc.mu.Lock()
 	o.query = clone(sc.wrote)
 	sc.mu.Unlock()
@@ -679,6 +745,10 @@ func check(c xcase, o obs, ex *expect) {
 	if len(o.bad) > 0 {
 		in["received_records_that_were_not_transmitted"] = o.bad
 	}
+	if o.paceLog != nil {
+		in["read_deadline_at_every_envelope_read"] = o.paceLog
+	}
+	st["envelope_reads_begun_with_no_read_deadline"] += o.noDeadline
 	if o.inErr != "" {
 		Viol("C15/in-error", "Transfer.In returned an error on a writable connection: "+o.inErr, in)
 		return
@@ -896,6 +966,12 @@ func runC15(r *Rng, tier string, n int) {
 	if thorough {
 		maxLen = 9
 	}
+
+	// ---- P. the read deadline of every envelope: senders that pace their
+	// envelopes, consumers that take their time (pace.go).  These transfers take
+	// real time, so they run in the background while the other families run; their
+	// verdicts are drawn by paced.finish() below.
+	paced := startPaced(r, thorough)
 
 	// ---- A. AXFR, every composition, without and with TSIG
 	for _, tsig := range []bool{false, true} {
@@ -1479,6 +1555,9 @@ func runC15(r *Rng, tier string, n int) {
 	// ---- T. sequences of transfers while the TSIG configuration changes, incoming and outgoing (seq.go)
 	seqIn(r, thorough)
 	seqOut(r, thorough)
+
+	// ---- P (end). the paced transfers started at the top have run meanwhile
+	paced.finish()
 
 	// ---- H. real loopback TCP server using Transfer.Out
 	loopback(r, thorough)
